@@ -41,12 +41,37 @@ def wspecs(rng, n):
 
 
 def intervals(rng):
+    if rng.random() < 0.5:
+        a = rng.choice([0, 0, 1, 7, 2 ** 31 - 9])
+        return (a, a + rng.randint(0, 8))       # every small row count, incl. 4 (= number of columns of a row)
     return rng.choice([(0, 0), (0, 1), (0, 2), (0, 3), (5, 5), (5, 6), (7, 9), (H - 2, H), (H - 1, H), (1000000, 1000002),
                        (3, 2), (rng.randrange(H - 3), 0)])
 
 
+def fp_leading_zero_seeds(rng, n):
+    """seeds whose master fingerprint starts with a zero nibble / zero byte (formatting corner)"""
+    out = []
+    i = 0
+    while len(out) < n and i < 3000:
+        i += 1
+        sd = bytes(rng.getrandbits(8) for _ in range(16))
+        mk = indep_master(sd)
+        if mk is None:
+            continue
+        x, y = point(int.from_bytes(mk[0], "big"))
+        fp = h160(sec_c(x, y))[:4]
+        if fp[0] < 16:
+            out.append(sd)
+    return out
+
+
 def cases(rng, tier):
     n = 14 if tier == "quick" else 600
+    for sd in fp_leading_zero_seeds(rng, 2 if tier == "quick" else 20):
+        yield "wasabi seedb:%s:%s" % (hx(sd), rng.choice("01")), "wasabi-fp-leading-zero"
+    for ln in range(0, 9):
+        w = wspecs(rng, 1)[0]
+        yield "generate %s %d %d %d" % (w, rng.choice([0, 1]), 3, 3 + ln), "generate-rows-%d" % ln
     for w in wspecs(rng, n):
         acct = rng.choice([0, 0, 1, H - 2, H - 1, rng.randrange(H)])
         a, b = intervals(rng)
